@@ -606,12 +606,18 @@ func inBitsFn(w uint8, kind string) intrinsic {
 				bit := tt.Eq(tt.Extract(x, i, i), tt.Const(1, 1))
 				r = tt.Ite(bit, tt.Const(64, uint64(w-1-i)), r)
 			}
+			if e.cfg.ConcretizeBits && !r.IsConst() {
+				return tt.Const(64, e.Concretize(r, "leading zero count"))
+			}
 			return r
 		case "tz":
 			r := tt.Const(64, uint64(w))
 			for i := int(w) - 1; i >= 0; i-- {
 				bit := tt.Eq(tt.Extract(x, uint8(i), uint8(i)), tt.Const(1, 1))
 				r = tt.Ite(bit, tt.Const(64, uint64(i)), r)
+			}
+			if e.cfg.ConcretizeBits && !r.IsConst() {
+				return tt.Const(64, e.Concretize(r, "trailing zero count"))
 			}
 			return r
 		case "pop":
